@@ -220,7 +220,7 @@ void SDDecartian::UpdateSize() noexcept {
   count = 1;
   for (const auto& factor : factors) {
     const auto factorSize = factor.B().Cardinality();
-    if (StructuredData::SET_INFINITY / factorSize > count) {
+    if (StructuredData::SET_INFINITY / factorSize >= count) {
       count *= factorSize;
     } else {
       count = StructuredData::SET_INFINITY;
